@@ -112,6 +112,17 @@ Proof.
   rewrite negb_involutive. reflexivity.
 Qed.
 
+(** FromTileMatrixSet: the deepest resolution is the x span divided by 2^deepest, rounded DOWN (for a
+    non-negative span) — the grid of the theorems that speak about FromTileMatrixSet-style grids
+    ([tmsGrid] in Index/ProofsRound.v uses exactly this quotient) *)
+Lemma gen_deepestRes_spec e d : eminx e <= emaxx e ->
+  gen_deepestRes (ext_tuple e) (pow2 d) = (emaxx e - eminx e) / pow2 d.
+Proof.
+  intro H. unfold gen_deepestRes, gx_xspan, ext_tuple. cbn [gx_minx gx_maxx].
+  assert (0 < pow2 d) by (unfold pow2; apply Z.pow_pos_nonneg; lia).
+  apply Z.quot_div_nonneg; lia.
+Qed.
+
 (** all ties of this file in one statement, cited from the property files *)
 Theorem generated_pointindex_is_model :
   (forall a b, 0 < b -> gen_floorDiv a b = a / b) /\
